@@ -169,12 +169,109 @@ impl SubCheck for Witnesses {
     }
 }
 
+/// The same validation with the harness owning the schedule (C05's cooperative scheduler, with
+/// scheduling points inside model code): two workers reaching the same join state at the same
+/// moment, one by a path that satisfies an eventually-condition and one by a path that does not.
+pub struct WitnessesScheduled;
+impl SubCheck for WitnessesScheduled {
+    type Case = crate::props::c05::SchedCase;
+    fn name(&self) -> &'static str {
+        "witness_paths_under_owned_schedules"
+    }
+    fn cases(&self, tier: Tier) -> u32 {
+        tier.pick(4000, 60000)
+    }
+    fn max_shrink_iters(&self) -> u32 {
+        600
+    }
+    fn strategy(&self, _tier: Tier) -> BoxedStrategy<Self::Case> {
+        use crate::props::c05::{SchedCase, Stop};
+        let mut p = GraphParams::small();
+        p.max_n = 14;
+        p.max_deg = 3;
+        p.max_props = 3;
+        p.min_props = 1;
+        p.oob_rate = 15;
+        p.exps = vec![Exp::Eventually, Exp::Eventually, Exp::Always, Exp::Sometimes];
+        p.shapes = vec![(3, Shape::Dag(2)), (2, Shape::Dag(3)), (2, Shape::Uniform), (1, Shape::Cyclic)];
+        p.max_inits = 2;
+        // half of the graphs are chains of diamonds (t -> l, r -> b): with blocks of one state the
+        // two workers evaluate l and r side by side and reach the join b together
+        let diamonds = (1usize..=3, proptest::collection::vec(any::<u8>(), 12), proptest::collection::vec(prop_oneof![2 => Just(Exp::Eventually), 1 => Just(Exp::Always), 1 => Just(Exp::Sometimes)], 1..=3), 0usize..=2).prop_map(|(k, masks, exps, tail)| {
+            let n = 3 * k + 1 + tail;
+            let mut edges: Vec<Vec<Option<u32>>> = vec![vec![]; n];
+            for d in 0..k {
+                let t = 3 * d;
+                edges[t] = vec![Some(t as u32 + 1), Some(t as u32 + 2)];
+                edges[t + 1] = vec![Some(t as u32 + 3)];
+                edges[t + 2] = vec![Some(t as u32 + 3)];
+            }
+            for i in 3 * k..n - 1 {
+                edges[i] = vec![Some(i as u32 + 1)];
+            }
+            let props = exps.iter().enumerate().map(|(j, e)| PropDesc { exp: *e, on: (0..n as u32).filter(|s| (masks[*s as usize % masks.len()] >> j) & 1 == 1).collect() }).collect();
+            GraphDesc { n: n as u32, inits: vec![0], edges, oob: Default::default(), props, panic_at: None, shape: "Diamonds".to_string(), yield_in_model: true, slow_us: 0 }
+        });
+        (prop_oneof![1 => graph_strategy(p), 2 => diamonds.boxed()], prop_oneof![Just(Strat::Bfs), Just(Strat::Dfs), Just(Strat::OnDemand)], 2usize..=3, 1usize..=2, proptest::collection::vec(any::<u8>(), 20..200))
+            .prop_map(|(g, strat, threads, block, schedule)| SchedCase { g, strat, threads, block, stop: Stop::Exhaust, schedule, yield_in_model: true, real_threads: false })
+            .boxed()
+    }
+    fn check(&self, c: &Self::Case, cov: &mut Cov) -> Result<(), Fail> {
+        use crate::props::c05::{run_scheduled, Joined, JOIN_WAIT_S};
+        let out = run_scheduled(c, Duration::from_secs(JOIN_WAIT_S));
+        cov.eval();
+        if out.stuck {
+            fail!("inconclusive/scheduler-watchdog", "a controlled thread did not reach a scheduling point within the watchdog");
+        }
+        if let Some(d) = &out.deadlock {
+            fail!("c03/scheduled/worker-sleeps-forever", "logical deadlock: {}", d);
+        }
+        if !matches!(out.joined, Joined::Returned) {
+            fail!("c03/scheduled/join-did-not-return-normally", "{} threads={} block={}", c.strat.label(), c.threads, c.block);
+        }
+        if let Err(e) = &out.discovered {
+            let first = e.lines().find(|l| !l.trim().is_empty()).unwrap_or("").trim().chars().take(60).collect::<String>();
+            fail!(format!("c03/scheduled/discoveries-panicked: {}", first), "discoveries() panicked: {}", e);
+        }
+        let g = &c.g;
+        let gm = GM::new(g);
+        for (k, p) in g.props.iter().enumerate() {
+            let Some(path) = out.discovery_paths.get(PROP_NAMES[k]) else { continue };
+            let holds = |s: &S| p.on.contains(&s.0);
+            let has_succ = |s: &S| !g.succ_inb(s.0).is_empty();
+            if let Err(f) = validate_discovery(&gm, p.exp, &holds, &has_succ, path, false, &|a, b| a == b) {
+                fail!(format!("c03/scheduled/{}", f.sig), "property {} ({:?}) under {} with {} workers, block {}: {}", PROP_NAMES[k], p.exp, c.strat.label(), c.threads, c.block, f.detail);
+            }
+            cov.label(match p.exp {
+                Exp::Eventually => "eventually_discovery",
+                Exp::Always => "always_discovery",
+                Exp::Sometimes => "sometimes_discovery",
+            });
+        }
+        let workers: std::collections::BTreeSet<&str> = out.visits.iter().map(|v| v.thread.as_str()).collect();
+        cov.label(c.strat.label());
+        cov.label_if(workers.len() >= 2, "two_workers_did_work");
+        cov.label_if(g.features().contains(&"join"), "join");
+        cov.label_if(g.shape == "Diamonds", "diamond_chain");
+        if workers.len() >= 2 && !out.discovery_paths.is_empty() {
+            cov.nontrivial(c);
+            if cov.wants_sample() {
+                cov.sample(json!({"graph": g, "strategy": c.strat.label(), "threads": c.threads, "block": c.block, "discoveries": out.discovery_paths.iter().map(|(k, p)| (k.to_string(), p.clone().into_states().iter().map(|s| s.0).collect::<Vec<_>>())).collect::<std::collections::BTreeMap<_, _>>()}));
+            }
+        }
+        Ok(())
+    }
+    fn mandatory(&self) -> Vec<&'static str> {
+        vec!["bfs", "dfs", "on_demand", "two_workers_did_work", "join", "eventually_discovery", "diamond_chain"]
+    }
+}
+
 pub fn spec() -> PropSpec {
     PropSpec {
         id: "C03",
         level: "exploration",
         rule: "Cases = (generated graph model with 2-5 properties, eventually-properties favoured, boundaries next to terminal states; strategy in {bfs,dfs,on-demand,simulation}; threads 1-4; all six finish conditions). Every path returned by discoveries() (called under catch_unwind) is validated by a path validator independent of Path::from_fingerprints: initial state, enabled actions, next_state agreement, boundary, and the per-expectation end condition (eventually: no state satisfies, and terminal or - simulation only - cycle closed). Non-trivial = some discovery with >= 1 transition in a model with >= 2 properties; distinct by hash of (graph, config).",
         assumptions: vec!["validates what is returned after the workers have finished; snapshots during a run are not examined"],
-        subs: vec![Box::new(Witnesses)],
+        subs: vec![Box::new(Witnesses), Box::new(WitnessesScheduled)],
     }
 }
